@@ -4,7 +4,7 @@
   (flag set, liabilities cleared) and the append of a new state.
 -/
 import DymVerif.Lemmas.CoreForkInv
-namespace DymVerif.Core
+namespace DymVerif.Core.Fork
 
 /-- everything the step lemmas need of the pre-state -/
 structure Inv (s : St) : Prop where
@@ -182,7 +182,7 @@ theorem hardForkToLatest_weak {s s' : St} {ra : Nat} (hc : ChainAll s) (e : hard
 
 -- ---------------------------------------------------------------- finalization of one state
 
-theorem SInfo.WF.bd_at {st : SInfo} (hw : st.WF) {h : Nat} (h1 : st.start ≤ h) (h2 : h ≤ st.last) :
+theorem _root_.DymVerif.Core.SInfo.WF.bd_at {st : SInfo} (hw : st.WF) {h : Nat} (h1 : st.start ≤ h) (h2 : h ≤ st.last) :
     ∃ b ∈ st.bds, b.height = h := by
   rw [hw.last_eq] at h2
   have hlen := hw.bds_len
@@ -308,4 +308,4 @@ theorem mem_addSeqHeights (a : Addr) (bds : List BD) (sh : List (Addr × Nat)) (
       · exact Or.inl h2
     · exact Or.inr ⟨b', by simp [hb'], hp⟩
 
-end DymVerif.Core
+end DymVerif.Core.Fork
